@@ -131,15 +131,28 @@ def parseOp (st : St) (line : String) : Option Op :=
   | ["sports", k, xs, ss] => do
     some (.streamPorts (← parseWhich k) (← st.refs (if xs == "[]" then "" else xs))
       (← st.refs (if ss == "[]" then "" else ss)))
+  | ["sport", k, xs, i, s] => do
+    some (.streamPort (← parseWhich k) (← st.refs (if xs == "[]" then "" else xs)) (← i.toNat?) (← st.ref s))
   | ["own", u, v] => do
     some (.setOwner (← u.toNat?) (← (if v == "-" then some none else v.toNat?.map some)))
   | ["slice", k, u, a, b, items] => do
-    some (.slice (← parseWhich k) (← u.toNat?) (← a.toNat?) (← b.toNat?)
-      (← st.optRefs (if items == "[]" then "" else items)))
+    -- bounds: `n` = None, `-j` = negative, otherwise a natural number
+    let bound (t : String) : Option (Option Int) :=
+      if t == "n" then some none
+      else if t.startsWith "-" then (t.drop 1).toString.toNat?.map (fun j => some (-(Int.ofNat j)))
+      else t.toNat?.map (fun j => some (Int.ofNat j))
+    match a.toNat?, b.toNat? with
+    | some a, some b =>
+      some (.slice (← parseWhich k) (← u.toNat?) a b (← st.optRefs (if items == "[]" then "" else items)))
+    | _, _ =>
+      some (.sliceI (← parseWhich k) (← u.toNat?) (← bound a) (← bound b)
+        (← st.optRefs (if items == "[]" then "" else items)))
   | ["sliceall", k, u, items] => do
     some (.sliceAll (← parseWhich k) (← u.toNat?) (← st.optRefs (if items == "[]" then "" else items)))
   | ["ins", k, u, i, s] => do
-    some (.insert (← parseWhich k) (← u.toNat?) (← i.toNat?) (← st.ref s))
+    match ← parseIdx i with
+    | .inl i => some (.insert (← parseWhich k) (← u.toNat?) i (← st.ref s))
+    | .inr j => some (.insertBack (← parseWhich k) (← u.toNat?) j (← st.ref s))
   | ["app", k, u, s] => do some (.append (← parseWhich k) (← u.toNat?) (← st.ref s))
   | ["ext", k, u, ss] => do
     some (.extend (← parseWhich k) (← u.toNat?) (← st.refs (if ss == "[]" then "" else ss)))
